@@ -87,6 +87,11 @@ func ParseRaceLog(text string) []RaceReport {
 // returns its stdout, the parsed race reports and the exit status. timedOut
 // tells whether the wall-clock watchdog had to kill it.
 func RunRaceChild(workDir string, tag string, env []string, timeout time.Duration, args ...string) (stdout []byte, reports []RaceReport, exitCode int, timedOut bool, err error) {
+	return RunRaceChildOpts(workDir, tag, env, timeout, "", args...)
+}
+
+// RunRaceChildOpts is RunRaceChild with extra GORACE options (e.g. "history_size=7").
+func RunRaceChildOpts(workDir string, tag string, env []string, timeout time.Duration, gorace string, args ...string) (stdout []byte, reports []RaceReport, exitCode int, timedOut bool, err error) {
 	bin := os.Getenv("VCHECK_RACE_BIN")
 	if bin == "" {
 		return nil, nil, -1, false, fmt.Errorf("VCHECK_RACE_BIN not set (run through ./check)")
@@ -95,7 +100,7 @@ func RunRaceChild(workDir string, tag string, env []string, timeout time.Duratio
 	ctx, cancel := context.WithTimeout(context.Background(), timeout)
 	defer cancel()
 	cmd := exec.CommandContext(ctx, bin, append([]string{"child"}, args...)...)
-	cmd.Env = append(os.Environ(), "GORACE=halt_on_error=0 log_path="+logBase)
+	cmd.Env = append(os.Environ(), "GORACE=halt_on_error=0 "+gorace+" log_path="+logBase)
 	cmd.Env = append(cmd.Env, env...)
 	var so, se bytes.Buffer
 	cmd.Stdout, cmd.Stderr = &so, &se
